@@ -38,6 +38,7 @@ func main() {
 		fmt.Sscan(d, &s)
 		c.Deadline = time.Now().Add(time.Duration(s) * time.Second)
 	}
+	c.Confirm = p.replay
 	p.run(c)
 	os.Exit(c.Finish())
 }
